@@ -107,7 +107,8 @@ LEVEL_NOTE = "pandas is the reference; domain limited to the operations and opti
 TECHNIQUE = "runtime monitoring: pandas differential oracle over a complete small partitioning space + random frames"
 CASE_TIMEOUT = 120
 # known findings (known_findings.d/C37.json; root causes R1..R10 in findings_proposed/C37.md).  Fixed and removed:
-# idxmin/idxmax:unsorted-columns:index (fixes_ready/C37_01), std:datetime-column:raises (fixes_ready/C37_02).
+# idxmin/idxmax:unsorted-columns:index (fixes_ready/C37_01), std:datetime-column:raises (C37_02, C37_03),
+# var:ddof>=count:lost-NA (fixes_ready/C37_03).
 PENDING = {
     'min/max:skipna=False&empty-partition:spurious-NA':
         'min/max(skipna=False) return NaN as soon as one partition is empty (Series and DataFrame)',
@@ -159,8 +160,6 @@ PENDING = {
         "describe() of a datetime column has no 'mean' row (pandas has one)",
     'cov/corr:datetime-column:raises':
         'DataFrame.corr(numeric_only=True) raises TypeError for a frame holding a datetime column (pandas drops it and answers)',
-    'var:ddof>=count:lost-NA':
-        'var/std/sem with ddof equal to the number of valid rows give inf (pandas NaN)',
     'nunique:signed-zero&multi-partition:values':
         'nunique counts -0.0 and +0.0 as two values when the data is spread over several partitions',
 }
